@@ -138,14 +138,19 @@ pub fn parallel_parse(
                 Ok(Some(parsed_data)) => {
                     #[cfg(typeshare_verif)]
                     crate::verif::file_point("send");
-                    tx.send(Ok(parsed_data)).unwrap();
+                    // The collector stops at the first error it receives and drops the
+                    // receiver; a result that arrives after that has nobody to go to.
+                    if tx.send(Ok(parsed_data)).is_err() {
+                        return WalkState::Quit;
+                    }
                     WalkState::Continue
                 }
                 Ok(None) => WalkState::Continue,
                 Err(err) => {
                     #[cfg(typeshare_verif)]
                     crate::verif::file_point("send");
-                    tx.send(Err(err)).unwrap();
+                    // An earlier error may already have stopped the collector.
+                    let _ = tx.send(Err(err));
                     WalkState::Quit
                 }
             }
